@@ -12,7 +12,7 @@ namespace {
 struct Case {
     std::vector<uint8_t> bytes;
     int                  width{1};
-    int                  twins{0}; // 1: numeric group values come from the table of numbers that share a 64-bit pattern across kinds
+    int                  twins{0}; // 2: as 1, and the members have names of one hash (see kGroupKey); 1: numeric group values come from the table of numbers that share a 64-bit pattern across kinds
 };
 
 struct Member {
@@ -31,7 +31,8 @@ struct Obj {
     std::string group_text;           // textual value of the group key
 };
 
-const char *kGroupKey = "g";
+const char *kGroupKey = "g"; // "year" in the twins == 2 mode, where the other members are named "pear", "near", ...: names of the same hash
+                             // (StringUtils::Hash does not see the first character of a longer name)
 
 Member gen_group_value(Entropy &e) {
     Member m;
@@ -165,6 +166,7 @@ template <typename Char_T>
 Scenario make_scenario(const Case &c, Value<Char_T> &arr) {
     Entropy  e(c.bytes);
     Scenario sc;
+    kGroupKey  = (c.twins == 2) ? "year" : "g";
     unsigned n = e.below(13);
     arr        = Value<Char_T>{ValueType::Array};
     size_t first_pos = size_t(-1);
@@ -173,7 +175,9 @@ Scenario make_scenario(const Case &c, Value<Char_T> &arr) {
         Obj         o;
         Value<Char_T> v{ValueType::Object};
         // plan: other members (distinct keys), the group key at a random position, an id, optional removed members
-        static const char *names[] = {"m", "n", "p", "q", "y"};
+        static const char *names1[] = {"m", "n", "p", "q", "y"};
+        static const char *names2[] = {"pear", "near", "dear", "q", "fear"};
+        const char *const *names    = (c.twins == 2) ? names2 : names1;
         unsigned           others   = e.below(5);
         std::vector<Member> plan;
         for (unsigned k = 0; k < others; ++k) {
@@ -251,7 +255,7 @@ struct H {
     static const char *name() { return "C18 group by"; }
     static rc::Gen<Case> gen() {
         using namespace rc;
-        return gen::map(gen::tuple(gen::resize(200, gen::container<std::vector<uint8_t>>(gen::arbitrary<uint8_t>())), pbt::pick<int>({0, 0, 1}), pbt::pick<int>({1, 1, 2, 4, 3})),
+        return gen::map(gen::tuple(gen::resize(200, gen::container<std::vector<uint8_t>>(gen::arbitrary<uint8_t>())), pbt::pick<int>({0, 0, 1, 2}), pbt::pick<int>({1, 1, 2, 4, 3})),
                         [](std::tuple<std::vector<uint8_t>, int, int> t) {
                             Case c;
                             c.bytes = std::get<0>(t);
@@ -264,7 +268,7 @@ struct H {
     static bool from_fuzz(const uint8_t *d, size_t n, Case &c) {
         pbt::FuzzBytes f(d, n);
         const uint8_t sel = f.sel();
-        c.twins = (sel % 3) == 0;
+        c.twins = (sel % 3) == 0 ? 1 : ((sel % 3) == 1 && (sel & 0x40) != 0) ? 2 : 0;
         c.width = ((sel >> 4) & 3) == 1 ? 2 : ((sel >> 4) & 3) == 2 ? 4 : 1;
         c.bytes = f.rest();
         return true;
@@ -416,7 +420,7 @@ struct H {
         }
 
         // the loop's group= attribute iterates the same partition
-        std::string tpl = "<loop set=\"arr\" group=\"g\" value=\"G\">[{var:G}:<loop set=\"G\" value=\"it\">({var:it[id]})</loop>]</loop>";
+        std::string tpl = "<loop set=\"arr\" group=\"" + std::string(kGroupKey) + "\" value=\"G\">[{var:G}:<loop set=\"G\" value=\"it\">({var:it[id]})</loop>]</loop>";
         std::string want;
         for (size_t gi = 0; gi < order.size(); ++gi) {
             want += "[" + order[gi] + ":";
